@@ -27,6 +27,7 @@ from comb_spec_searcher import (
 )
 from comb_spec_searcher.exception import InvalidOperationError, StrategyDoesNotApply
 from comb_spec_searcher.strategies import AtomStrategy
+from comb_spec_searcher.typing import CombinatorialClassType
 
 
 MARKS = "xyz"
@@ -674,6 +675,51 @@ class ExpandFactory(StrategyFactory[W]):
         return cls(tuple(d["ks"]))
 
 
+class GenericExpandFactory(StrategyFactory[CombinatorialClassType]):
+    """ExpandFactory left generic in the class type, so that instances can be created
+    directly (GenericExpandFactory()) and through a subscripted alias
+    (GenericExpandFactory[W]()); both are the same kind with the same settings."""
+
+    __init__ = ExpandFactory.__init__
+    __call__ = ExpandFactory.__call__
+
+    def to_jsonable(self) -> dict:
+        d = super().to_jsonable()
+        d["ks"] = list(self.ks)
+        return d
+
+    def __str__(self) -> str:
+        return f"generic expand factory {self.ks}"
+
+    def __repr__(self) -> str:
+        return f"GenericExpandFactory({self.ks!r})"
+
+    @classmethod
+    def from_dict(cls, d: dict) -> "GenericExpandFactory":
+        return cls(tuple(d["ks"]))
+
+
+class MixedFactory(StrategyFactory[W]):
+    """Yields strategy objects of which the first does not apply to every class:
+    RemoveFront() (not applicable to a class without a prefix), then Expand()."""
+
+    def __call__(self, c: W):
+        if c.marked:
+            return
+        yield RemoveFront()
+        yield Expand()
+
+    def __str__(self) -> str:
+        return "mixed factory"
+
+    def __repr__(self) -> str:
+        return "MixedFactory()"
+
+    @classmethod
+    def from_dict(cls, d: dict) -> "MixedFactory":
+        return cls()
+
+
 class RuleFactory(StrategyFactory[W]):
     """Yields ready rules: the expansion of the class itself and, for a class
     with a non-empty prefix, the expansion of the class whose prefix is one
@@ -832,9 +878,13 @@ class VerifyByPrefix(VerificationStrategy[W, Word]):
                 inferral_strats=[],
                 expansion_strats=[[Expand()]],
                 ver_strats=[WordAtom(), VerifyByPrefix(self.inner)],
-                name="base+inner",
+                name="base+inner@" + (c.prefix or "e"),
             )
-        return base_pack()
+        # the pack on offer depends on the class (here: in its name only, so that it is always
+        # sufficient); packs of different classes are different StrategyPack objects
+        pk = base_pack()
+        pk.name = "base@" + (c.prefix or "e")
+        return pk
 
     def to_jsonable(self) -> dict:
         d = super().to_jsonable()
@@ -997,6 +1047,8 @@ def make_pack(name: str) -> StrategyPack:
             inferral = [NormaliseStats(), RemovePatterns()]
         elif f == "sfac":
             expansion = [[ExpandFactory()]]
+        elif f == "mfac":  # a factory yielding a strategy that does not apply before the one that does
+            initial, expansion = [], [[MixedFactory()]]
         elif f == "rfac":
             expansion = [[RuleFactory()]]
         elif f == "rfac2":
